@@ -230,7 +230,10 @@ def execute(ctx):
         # a notification nobody asked for (or a second one)
         for r in reqs:
             if r.kind == kind[0] and r.mem_index == mid and r.addr == addr and r.done and r.session == st.get('session'):
-                ctx.violation('3', 'second-notification', '%s mem %d addr %d notified again (%s)' % (kind, mid, addr, result))
+                race = ' [the link was torn down while the dispatcher was completing a request]' \
+                    if st.get('raced') else ''
+                ctx.violation('3', 'second-notification' + race,
+                              '%s mem %d addr %d notified again (%s)' % (kind, mid, addr, result))
                 return
         ctx.violation('3', 'unrequested-notification', '%s mem %d addr %d result %s' % (kind, mid, addr, result))
 
